@@ -178,7 +178,7 @@ func (g *Gen) union(name string) *UnionDecl {
 
 // --- type declarations ---------------------------------------------------------------------
 
-var strPool = []string{"", "a", "b", "ab", "xyz", "hello", "A b", "q", "zz", "rect", "circle"}
+var strPool = []string{"", "a", "b", "ab", "xyz", "hello", "A b", "q", "zz", "rect", "circle", "t\tb", "q\"q", "b\\s", "l\nm"}
 
 // fieldTypePool: types usable for fields / payloads given what is declared so far.
 func (g *Gen) dataTypes(depth int) []*Type {
@@ -637,8 +637,40 @@ func (g *Gen) boolExpr(sc *scope, depth int) *Expr {
 		}
 		return Bin(op, TBool, g.expr(sc, TInt, depth-1), g.expr(sc, TInt, depth-1))
 	case 2:
-		op := []string{"&&", "||"}[g.intn(2, "logicOp")]
 		g.label("short-circuit operator")
+		if g.chance(1, 2, "logicChain") {
+			// a chain of three or four probed operands joined by a mix of && and ||, grouped to the left
+			// (no parentheses needed: Folang gives both operators one rank) or to the right (parenthesised):
+			// which operands run, and in which order, is visible in the trace
+			g.label("mixed && / || chain with probed operands")
+			n := 3 + g.intn(2, "chainLen")
+			atom := func() *Expr {
+				var a *Expr
+				switch g.intn(3, "chainAtom") {
+				case 0:
+					a = Bool(g.chance(1, 2, "chainLit"))
+				case 1:
+					a = Bin([]string{"<", ">"}[g.intn(2, "chainCmp")], TBool, g.expr(sc, TInt, 0), g.expr(sc, TInt, 0))
+				default:
+					a = g.expr(sc, TBool, 0)
+				}
+				return g.probe(a)
+			}
+			ops := func() string { return []string{"&&", "||"}[g.intn(2, "chainOp")] }
+			if g.chance(2, 3, "chainLeft") {
+				e := atom()
+				for i := 1; i < n; i++ {
+					e = Bin(ops(), TBool, e, atom())
+				}
+				return e
+			}
+			e := atom()
+			for i := 1; i < n; i++ {
+				e = Bin(ops(), TBool, atom(), e)
+			}
+			return e
+		}
+		op := []string{"&&", "||"}[g.intn(2, "logicOp")]
 		l := g.maybeProbe(g.expr(sc, TBool, depth-1), 1, 2)
 		r := g.maybeProbe(g.expr(sc, TBool, depth-1), 2, 3)
 		return Bin(op, TBool, l, r)
